@@ -2,7 +2,8 @@ import DaskModel.Model.ArrayExpr
 /-!
 # C30 — the array expression engine preserves array semantics  (**partial**)
 
-Model: `AE` (1-d integer arrays; leaf, elementwise neg/add, slice, rechunk, concat, finalize) with the NumPy
+Model: `AE` (1-d integer arrays; leaf, unary neg/abs/square, binary add/sub/mul/maximum (array∘array and array∘scalar),
+slice, rechunk, concat, finalize) with the NumPy
 denotation `den` and the lazily reported `chunks`.  Proved:
 * `chunks_sum` — whenever an expression denotes a value, its reported chunks sum to the length of that value
   (`refine_sum`, `sliceChunks_sum` are the chunk-arithmetic lemmas);
@@ -12,7 +13,7 @@ denotation `den` and the lazily reported `chunks`.  Proved:
 * `parStep_sound` — a whole optimizer pass accepted by the executable checker `parStep` preserves `den`;
   `chain_sound` — so does any finite sequence of passes (`fixpoint_sound`);
 * sound rules the engine does *not* have here (for when it gets them): `rechunk_rechunk_collapse`,
-  `slice_neg_pushdown`, `slice_add_pushdown`.
+  `slice_un_pushdown`, `slice_bin_pushdown`.
 Partial: only this node subset is modelled (n-d arrays, reductions, map_blocks, stack, broadcasting are
 validated differentially against NumPy and the classic engine); the tie checks every observed pass with `parStep`.
 -/
@@ -105,7 +106,7 @@ theorem chunks_sum : ∀ (e : AE) (xs : List Int), den e = some xs → isum (chu
     split at h
     · rename_i hc; injection h with h; subst h; exact hc
     · simp at h
-  | neg a ih =>
+  | un op a ih =>
     intro xs h
     simp only [den] at h
     cases ha : den a with
@@ -114,7 +115,16 @@ theorem chunks_sum : ∀ (e : AE) (xs : List Int), den e = some xs → isum (chu
       simp only [ha, Option.map_some, Option.some.injEq] at h
       subst h
       simp [chunks, ih ys ha]
-  | add a b iha ihb =>
+  | binS op a sc ih =>
+    intro xs h
+    simp only [den] at h
+    cases ha : den a with
+    | none => simp [ha] at h
+    | some ys =>
+      simp only [ha, Option.map_some, Option.some.injEq] at h
+      subst h
+      simp [chunks, ih ys ha]
+  | bin op a b iha ihb =>
     intro xs h
     simp only [den] at h
     cases ha : den a with
@@ -211,7 +221,7 @@ theorem step_sound (e r : AE) (h : r ∈ rootRewrites e) : den r = den e := by
           have := chunks_sum a xs hx
           unfold isum at this
           omega)
-  | add a b =>
+  | bin op a b =>
     simp only [rootRewrites, List.mem_cons, List.mem_nil_iff, or_false] at h
     rcases h with rfl | rfl
     · rfl
@@ -272,7 +282,8 @@ theorem step_sound (e r : AE) (h : r ∈ rootRewrites e) : den r = den e := by
                 subst_vars
                 simp [hl]
   | leaf d c => simp only [rootRewrites, List.mem_cons, List.mem_nil_iff, or_false] at h; subst h; rfl
-  | neg a => simp only [rootRewrites, List.mem_cons, List.mem_nil_iff, or_false] at h; subst h; rfl
+  | un op a => simp only [rootRewrites, List.mem_cons, List.mem_nil_iff, or_false] at h; subst h; rfl
+  | binS op a sc => simp only [rootRewrites, List.mem_cons, List.mem_nil_iff, or_false] at h; subst h; rfl
   | slice s t a => simp only [rootRewrites, List.mem_cons, List.mem_nil_iff, or_false] at h; subst h; rfl
   | concat a b => simp only [rootRewrites, List.mem_cons, List.mem_nil_iff, or_false] at h; subst h; rfl
 
@@ -293,22 +304,33 @@ theorem parStep_sound : ∀ (e' e : AE), parStep e e' = true → den e' = den e 
     cases r <;> simp at hm
     obtain ⟨rfl, rfl⟩ := hm
     exact step2_sound e _ hr
-  | neg a' ih =>
+  | un op' a' ih =>
     intro e h
     simp only [parStep, List.any_eq_true] at h
     obtain ⟨r, hr, hm⟩ := h
     cases r <;> simp at hm
-    rename_i a
+    rename_i op a
+    obtain ⟨rfl, hm⟩ := hm
     rw [← step2_sound e _ hr]
     simp only [den, ih a hm]
-  | add a' b' iha ihb =>
+  | binS op' a' s' ih =>
     intro e h
     simp only [parStep, List.any_eq_true] at h
     obtain ⟨r, hr, hm⟩ := h
     cases r <;> simp at hm
-    rename_i a b
+    rename_i op a sc
+    obtain ⟨⟨rfl, rfl⟩, hm⟩ := hm
     rw [← step2_sound e _ hr]
-    simp only [den, iha a hm.1, ihb b hm.2]
+    simp only [den, ih a hm]
+  | bin op' a' b' iha ihb =>
+    intro e h
+    simp only [parStep, List.any_eq_true] at h
+    obtain ⟨r, hr, hm⟩ := h
+    cases r <;> simp at hm
+    rename_i op a b
+    obtain ⟨⟨rfl, h1⟩, h2⟩ := hm
+    rw [← step2_sound e _ hr]
+    simp only [den, iha a h1, ihb b h2]
   | slice s' t' a' ih =>
     intro e h
     simp only [parStep, List.any_eq_true] at h
@@ -383,7 +405,7 @@ theorem step_chunks (e r : AE) (h : r ∈ rootRewrites e)
         obtain ⟨x, hx⟩ := hfin a rfl hl
         simp [chunks, hx, isum]
       · rfl
-  | add a b =>
+  | bin op a b =>
     simp only [rootRewrites, List.mem_cons, List.mem_nil_iff, or_false] at h
     rcases h with rfl | rfl
     · rfl
@@ -393,7 +415,8 @@ theorem step_chunks (e r : AE) (h : r ∈ rootRewrites e)
         · rfl
       simp only [chunks, hw, refine'_self]
   | leaf d c => simp only [rootRewrites, List.mem_cons, List.mem_nil_iff, or_false] at h; subst h; rfl
-  | neg a => simp only [rootRewrites, List.mem_cons, List.mem_nil_iff, or_false] at h; subst h; rfl
+  | un op a => simp only [rootRewrites, List.mem_cons, List.mem_nil_iff, or_false] at h; subst h; rfl
+  | binS op a sc => simp only [rootRewrites, List.mem_cons, List.mem_nil_iff, or_false] at h; subst h; rfl
   | slice s t a => simp only [rootRewrites, List.mem_cons, List.mem_nil_iff, or_false] at h; subst h; rfl
   | concat a b => simp only [rootRewrites, List.mem_cons, List.mem_nil_iff, or_false] at h; subst h; rfl
 
@@ -411,7 +434,7 @@ theorem rechunk_rechunk_collapse (c₁ c₂ : List Nat) (a : AE) (h : isum c₁ 
     · simp [h2, h]
 
 /-- slice pushdown through a unary elementwise op -/
-theorem slice_neg_pushdown (s e : Nat) (a : AE) : den (.slice s e (.neg a)) = den (.neg (.slice s e a)) := by
+theorem slice_un_pushdown (op : UnOp) (s e : Nat) (a : AE) : den (.slice s e (.un op a)) = den (.un op (.slice s e a)) := by
   simp only [den]
   cases den a with
   | none => rfl
@@ -419,9 +442,9 @@ theorem slice_neg_pushdown (s e : Nat) (a : AE) : den (.slice s e (.neg a)) = de
 
 /-- slice pushdown through a binary elementwise op; the guard (operands of equal length) is necessary:
     without it the unsliced sum raises while the sliced one may not -/
-theorem slice_add_pushdown (s e : Nat) (a b : AE)
+theorem slice_bin_pushdown (op : BinOp) (s e : Nat) (a b : AE)
     (hl : ∀ xs ys, den a = some xs → den b = some ys → xs.length = ys.length) :
-    den (.slice s e (.add a b)) = den (.add (.slice s e a) (.slice s e b)) := by
+    den (.slice s e (.bin op a b)) = den (.bin op (.slice s e a) (.slice s e b)) := by
   simp only [den]
   cases ha : den a with
   | none => rfl
